@@ -228,12 +228,16 @@ func (e *Engine) checkComputedSubjectSet(
 		WithField("computed subjectSet relation", subjectSet.Relation).
 		Trace("check computed subjectSet")
 
+	// Following a computed subject set costs one level of depth, as it does in
+	// the union shortcut of checkSubjectSetRewrite. Without it, permissions
+	// that refer to each other below an intersection or negation recurse
+	// without bound while the check is still being constructed.
 	return e.checkIsAllowed(ctx, &relationTuple{
 		Namespace: r.Namespace,
 		Object:    r.Object,
 		Relation:  subjectSet.Relation,
 		Subject:   r.Subject,
-	}, restDepth, false)
+	}, restDepth-1, false)
 }
 
 // checkTupleToSubjectSet rewrites the relation tuple to use the subject-set relation.
